@@ -20,12 +20,23 @@ MANIFEST = {
                   "accepts - then the returned bytes are the decryption of the replica under the key the first t shares give and their SHA-256 "
                   "equals the manifest's content hash, and the new state is the old one plus exactly the accept effects - or the node state is "
                   "unchanged and nothing is returned (tamper, tamper_rejected(_spec), stored_or_announced_only_if_verified); the same for the CLI "
-                  "(tamper_cli). The excluded point (all-zero key, probability 2^-256 of generate_key) is characterised: held bytes sealed under a "
+                  "(tamper_cli). Manifests that arrive without their chunk (ingest_manifest, admitted announces - any content, any number, any "
+                  "order) leave the key a held chunk is read with, and hence every later lookup, unchanged (held_chunk_not_poisoned, "
+                  "store_then_forged, replica_then_forged; defect C11-1 repaired by fixes/C11-ingest-must-not-poison-held-chunk.patch, the guard's "
+                  "presence is an extracted role pinned by gen_guards). Composition module Proofs/SystemReplication (soft): publisher store -> "
+                  "admitted announce (C21) -> assigned fetch (C24) -> served CHUNK carrying the held bytes (C23 + glue) -> signed message "
+                  "(SystemMessaging) -> handle_chunk -> the importer's lookup returns exactly the payload and the pending fetch is gone "
+                  "(replica_is_original); along any history of arbitrary CHUNKs / announces / ingests every accepted replica hashes to the "
+                  "content hash of the manifest cached for it, a refused CHUNK changes nothing, equality with the payload up to an explicit "
+                  "SHA-256 collision (replica_safety, rejected_chunk_changes_nothing, accepted_is_original_or_collision); the replica's "
+                  "deadline is no later than the manifest's and from then on nothing serves it (replica_lifetime via C03.derived, "
+                  "C01.dead_unreachable). The excluded point (all-zero key, probability 2^-256 of generate_key) is characterised: held bytes sealed under a "
                   "hidden replacement key, a concrete failing lookup (zero_key, zero_key_counterexample), and replayed on the real code. Tied to "
                   "the code by (T) the statement order of receive_chunk / the CLI function (every effect after the hash comparison) and the data-"
                   "flow roles (what is hashed, which id / nonce / threshold the cipher and combine get, what is stored and returned) extracted "
                   "from Node.cpp / main.cpp on every run - the model reads them and the proofs pin them - and by (H) a differential run of two real "
-                  "Nodes and the real CLI function in one process against the compiled Lean model, the Lean specification functions (Spec.sha256, "
+                  "Nodes (with socketpair-planted sessions: handle_announce, handle_request, handle_chunk are driven and their frames read back) "
+                  "and the real CLI function in one process against the compiled Lean model, the Lean specification functions (Spec.sha256, "
                   "Spec.chacha20, Lagrange reconstruction in the specification field) judging every answer of the implementation.",
     "level_note": "Partial in two respects. (1) Time: the replica clause is proved under the hypothesis that the importing node's TTL window "
                   "admits the manifest (manifest_ttl is modelled; admitted_same_instant shows the hypothesis holds at the instant of the store "
